@@ -711,15 +711,60 @@ func c19ForeignTop(ctx *core.Ctx, r *rand.Rand, d *drv.Driver, p *c19Pending) {
 			map[string]any{"schema": stxt, "physical": c19PhysText(phys)})
 		return
 	}
-	schema := parquet.NewSchema("table", parquet.Group{"id": parquet.Int(32), "var": variantNode})
 	nrows := 4 + r.Intn(6)
 	nodes := make([]*c19Node, nrows)
+	for i := range nodes {
+		nodes[i] = c19ForeignValues(r, s, c19ShredValue(r, s, 0, false))
+	}
+	c19ForeignTopRun(ctx, r, d, p, s, phys, variantNode, nodes)
+}
+
+// directed: decimals whose sign and low-order byte disagree, in every foreign layout
+func c19ForeignDirected(ctx *core.Ctx, r *rand.Rand, d *drv.Driver, p *c19Pending) {
+	if d == nil {
+		return
+	}
+	dec := func(x int64) *c19Node {
+		n := &c19Node{kind: "d16", scale: 2, b: make([]byte, 16)}
+		for i := 0; i < 16; i++ {
+			if i < 8 {
+				n.b[i] = byte(uint64(x) >> (8 * i))
+			} else if x < 0 {
+				n.b[i] = 0xFF
+			}
+		}
+		return n
+	}
+	for _, ph := range []c19Phys{{kind: "ba-min"}, {kind: "ba-pad"}, {kind: "flba", flen: 9}, {kind: "flba", flen: 12}, {kind: "flba", flen: 16}} {
+		typ := parquet.ByteArrayType
+		if ph.kind == "flba" {
+			typ = parquet.FixedLenByteArrayType(ph.flen)
+		}
+		s := &c19Schema{kind: "prim", tag: "d16:20:2", node: func() parquet.Node { return parquet.Decimal(2, 20, typ) }}
+		phys := map[*c19Schema]c19Phys{s: ph}
+		variantNode, err := parquet.ShreddedVariant(s.parquetNode())
+		if err != nil {
+			ctx.Fail("L1", "shredded-schema-rejected foreign prim", "ShreddedVariant rejects a valid shredding schema: "+err.Error(), map[string]any{"physical": ph.String()})
+			continue
+		}
+		var nodes []*c19Node
+		for _, x := range []int64{0, 1, -1, 127, 128, -128, -129, 255, 256, -256, -255, 12345, -12345, -12544, 1_000_000_128, -9_999_999_872,
+			32767, 32768, -32768, -32769, 0x7FFFFFFFFFFFFF80, -0x7FFFFFFFFFFFFF80, math.MaxInt64, math.MinInt64} {
+			nodes = append(nodes, dec(x))
+		}
+		c19ForeignTopRun(ctx, r, d, p, s, phys, variantNode, nodes)
+	}
+}
+
+func c19ForeignTopRun(ctx *core.Ctx, r *rand.Rand, d *drv.Driver, p *c19Pending, s *c19Schema, phys map[*c19Schema]c19Phys, variantNode parquet.Node, nodes []*c19Node) {
+	stxt := s.String()
+	schema := parquet.NewSchema("table", parquet.Group{"id": parquet.Int(32), "var": variantNode})
+	nrows := len(nodes)
 	evs := make([][]c19Ev, nrows)
 	want := make([]string, nrows)
 	wantNative := make([]string, nrows)
 	canon := "foreign top " + stxt + " " + c19PhysText(phys)
 	for i := range nodes {
-		nodes[i] = c19ForeignValues(r, s, c19ShredValue(r, s, 0, false))
 		evs[i] = c19AncestorEvents("top", nil)
 		want[i] = nodes[i].SortedString()
 		var sb strings.Builder
